@@ -76,3 +76,8 @@ CHECKS.update({
     "C18": ("6/C18", "Event shapes (plain, typed, nested model, Start/Stop/InputRequired/HumanResponse events and subclasses, failure events with 12 exception kinds) x a JSON value alphabet (None, bools, ints > 2^53, floats, unicode/escape strings, nested containers depth <=2(4), marker-like keys) in dynamic fields, results and Any-typed fields x 9 channels (JsonSerializer plain/nested, EventEnvelopeWithMetadata by qualified name / by registry, EventEnvelope.parse, persisted ticks add_event / publish_event / step_result payloads / step input) through real JSON text; class, typed fields, dynamic fields, result, exception type+message compared.",
             "Fixes f430db9 (StopEvent dropped dynamic fields) and ea5f1bd (KeyError message re-quoted) repaired the defects this check found. AddWaiter.requirements (documented as not serializable) are outside the property.", ENUM_TECH),
 })
+
+CHECKS.update({
+    "C19": ("6/C19", "Every sequence (length <=3; length 4 over a structure-changing sub-alphabet in the thorough tier) of mutating operations {set(path,value) incl. list indices, missing intermediates, children of scalars, undeclared fields; set_state replace / parent-type merge / incompatible type; clear; edit_state blocks; get_state()+mutate the snapshot} executed from scratch on InMemoryStateStore and on SqliteStateStore (real DB file) for DictState and a two-level typed model; full state dump and get() of 12-15 paths (with/without default) compared with a nested-dict reference after each sequence (every prefix is itself enumerated).",
+            "No state merging (hidden aliasing would make it unsound). Fixes a4f61f0 (DictState snapshot shared _data) and f7e78ce (SQLite set_state without stored row skipped the merge) repaired the defects this check found.", ENUM_TECH),
+})
